@@ -52,6 +52,10 @@ theorem allNested_unfold (c : Bool) (ts : List Tok) :
 @[simp] theorem isComma_ident (s : String) : isComma (.ident s) = false := rfl
 @[simp] theorem isComma_lit (p : Nat) : isComma (.lit p) = false := rfl
 @[simp] theorem isComma_group (p : Nat) : isComma (.group p) = false := rfl
+@[simp] theorem isAssign_eqTok (n : Option Tok) : isAssign eqTok n = true := by simp [isAssign, eqTok]
+@[simp] theorem isAssign_ident (s : String) (n : Option Tok) : isAssign (.ident s) n = false := rfl
+@[simp] theorem isAssign_lit (p : Nat) (n : Option Tok) : isAssign (.lit p) n = false := rfl
+@[simp] theorem isAssign_group (p : Nat) (n : Option Tok) : isAssign (.group p) n = false := rfl
 @[simp] theorem isEq_ident (s : String) : isEq (.ident s) = false := rfl
 @[simp] theorem isEq_lit (p : Nat) : isEq (.lit p) = false := rfl
 @[simp] theorem isEq_group (p : Nat) : isEq (.group p) = false := rfl
@@ -370,8 +374,10 @@ theorem named_args_perm (args args' : List Arg) (hok : ∀ a ∈ args, a.ok = tr
     canonical_perm hp hnd]
   exact ⟨rfl, rfl⟩
 
-/-- **The code as found violates C18**: `ignore(case), priority = 3` and `priority = 3, ignore(case)`
-parse differently (the first reports an error and loses the priority). -/
+/-- **The code as found violates C18** (defect D5: `parse_group` left the separator behind): `ignore(case), priority = 3`
+and `priority = 3, ignore(case)` parse differently - the first reports the comma as an unexpected token (with the empty
+argument check of D12 in place; before it, the comma and everything behind it became a positional callback and the
+priority was lost), the second reports nothing. -/
 theorem group_then_assign_counterexample :
     parseArgs false (renderArgs [.ignore 0, .priority [.lit 3]]) ≠
       parseArgs false (renderArgs [.priority [.lit 3], .ignore 0]) := by
@@ -380,11 +386,13 @@ theorem group_then_assign_counterexample :
     intro c ts n rest h
     rw [allNested_unfold, h]
   have e1 : allNested false (renderArgs [.ignore 0, .priority [.lit 3]]) =
-      [.named "ignore" (.group 0), .unnamed [comma, .ident "priority", eqTok, .lit 3]] := by
+      [.named "ignore" (.group 0), .unexpected [comma], .named "priority" (.assign [.lit 3])] := by
     rw [step (n := .named "ignore" (.group 0)) (rest := [comma, .ident "priority", eqTok, .lit 3])
           (by simp [renderArgs, Arg.render, nextNested, nextTt]),
-        step (n := .unnamed [comma, .ident "priority", eqTok, .lit 3]) (rest := [])
-          (by simp [nextNested, collectTail, comma]),
+        step (n := .unexpected [comma]) (rest := [.ident "priority", eqTok, .lit 3])
+          (by simp [nextNested, comma, isComma]),
+        step (n := .named "priority" (.assign [.lit 3])) (rest := [])
+          (by simp [nextNested, nextTt, collectTail]),
         allNested_nil]
   have e2 : allNested false (renderArgs [.priority [.lit 3], .ignore 0]) =
       [.named "priority" (.assign [.lit 3]), .named "ignore" (.group 0)] := by
@@ -394,7 +402,35 @@ theorem group_then_assign_counterexample :
           (by simp [nextNested, nextTt]),
         allNested_nil]
   intro h
-  have h2 := congrArg Definition.priority h
+  have h2 := congrArg Definition.errors h
   simp [parseArgs, e1, e2, applyAll, applyNested, namedAttr] at h2
+
+/-! ### blanks between tokens (defects D12, D13) -/
+
+/-- `name=<punctuation>..` written without blanks: the `=` is `Joint`, and still assigns -/
+theorem tight_assign_example :
+    allNested true [.ident "callback", .punct '=' false, .punct '|' true, .ident "lex", .punct '|' true, .ident "f"]
+      = [.named "callback" (.assign [.punct '|' true, .ident "lex", .punct '|' true, .ident "f"])] := by
+  rw [allNested_unfold]
+  simp [nextNested, nextTt, isAssign, isComma, collectTail, allNested_nil]
+
+/-- `==` and `=>` do not assign -/
+theorem eqeq_does_not_assign :
+    isAssign (.punct '=' false) (some (.punct '=' true)) = false ∧ isAssign (.punct '=' false) (some (.punct '>' true)) = false := by
+  simp [isAssign]
+
+/-- an argument left empty is reported, and what follows it is read as the next argument -/
+theorem empty_argument_example :
+    allNested true [comma, .ident "priority", eqTok, .lit 3]
+      = [.unexpected [comma], .named "priority" (.assign [.lit 3])] := by
+  rw [allNested_unfold]
+  simp [nextNested, isComma, comma]
+  rw [allNested_unfold]
+  simp [nextNested, nextTt, collectTail, allNested_nil]
+
+/-- the spacing of a comma means nothing: a `Joint` comma ends a value like an `Alone` one -/
+theorem joint_comma_separates (v rest : List Tok) :
+    collectTail (.punct ',' false :: rest) = ([], rest) := by
+  simp [collectTail, isComma]
 
 end Logos.Attr
